@@ -5,6 +5,7 @@ use std::io::{BufRead, Write};
 use std::panic::{catch_unwind, AssertUnwindSafe};
 
 mod dispatch;
+mod purity;
 
 #[derive(Clone, Debug)]
 pub enum Arg {
